@@ -124,19 +124,10 @@ def runDev (d : DateObj) (tv : Spec.TV) : List (Setter × List FV) → List Stri
 
 def argVals (as : List Arg) : List FV := as.filterMap Arg.val?
 
-/-- region invalid_setter_not_stored: the date is invalid at entry, a valueOf re-enters setTime with a valid time,
-    and the setter is one that returns NaN early without writing the object -/
-def notStored (revives : Bool) (d : DateObj) (as : List Arg) : Bool :=
-  !revives && d.isNaN && !(as.any (fun x => x.val?.isNone)) &&
-  (match lastMut as with
-   | some m => (Spec.clipNumber m).isSome
-   | none => false)
-
 def runDevS (d : DateObj) (tv : Spec.TV) : List (Setter × List Arg) → List String → List String
   | [], devs => devs
   | (k, a) :: rest, devs =>
     let threw := (a.take k.limit).any (fun x => x.val?.isNone)
-    let devs := if notStored (k = .time || k = .year) d (a.take k.limit) then devs ++ ["invalid_setter_not_stored"] else devs
     let devs := if !threw && setterHuge k d tv (argVals a) then devs ++ ["huge_field_cancel"] else devs
     runDevS (setUTCS k d a).1 (Spec.setUTCS (toSpecSetter k) tv (a.map toSpecArg)).1 rest devs
 
@@ -289,7 +280,6 @@ def runLocalDevS (z : Zone) (sz : Spec.Zone) (d : DateObj) (tv : Spec.TV) : List
   | (k, a) :: rest, devs =>
     let as := a.take k.limit
     let threw := as.any (fun x => x.val?.isNone)
-    let devs := if notStored (k = .year || k = .year2) d as then devs ++ ["invalid_setter_not_stored"] else devs
     let devs := if !threw then devs ++ localDev z sz k d tv (argVals a) else devs
     runLocalDevS z sz (setLocalS z k d a).1 (Spec.setLocalS sz (toSpecLSetter k) tv (a.map toSpecArg)).1 rest devs
 
